@@ -1,10 +1,92 @@
 import TypstyleModel.Proofs.Cli
-/-! C15 — in-place modes write exactly the formatted text, only where they should. -/
+/-! C15 — in-place modes write exactly the formatted text, only where they should.  Every
+theorem holds for every library function `lib`, every file tree and every invocation. -/
 namespace Typstyle.Cli
 
-/-- Usage errors (`--inplace --check`, `--inplace` on standard input) change nothing. -/
+/-- Usage errors (`--inplace --check`) change nothing and exit with status 2. -/
 theorem C15_usage_error_no_effect (lib : Lib) (a : Args) (w : Entry) (rootName : String)
     (h : a.inplace = true ∧ a.check = true) : (run lib a w rootName).world = w ∧ (run lib a w rootName).exit = 2 := by
   unfold run; simp [h.1, h.2, usageError]
+
+/-- T15.1/T15.2 (`-i` with a file list): the final tree is the fold, in argument order, of the
+per-file effect `inplaceStep`; an unreadable input contributes nothing and does not stop the
+others; nothing is printed on standard output. -/
+theorem C15_inplace_is_fold_of_per_file_effect (lib : Lib) (a : Args) (w : Entry) (ps : List Path) (hi : a.inplace = true) :
+    (runFiles lib a w ps).world = ps.foldl (inplaceStep lib a) w ∧ outsOf (runFiles lib a w ps).evs = [] := by
+  unfold runFiles
+  obtain ⟨h1, h2⟩ := foldl_manyStep_inplace lib a hi ps { st := { world := w } }
+  simp only
+  split <;> simp only [outsOf_append, h1, h2] <;> simp [outsOf]
+
+/-- The per-file effect: a file is rewritten if and only if it is readable, the library accepts it
+(no syntax errors) and the formatted text differs from its content; what is written is exactly the
+library result for the given options.  Otherwise the tree is returned untouched. -/
+theorem C15_per_file_effect (lib : Lib) (a : Args) (w : Entry) (p : Path) :
+    (∃ x y, readToString w p = some x ∧ lib a.style x = some y ∧ y ≠ x ∧ inplaceStep lib a w p = w.write p y) ∨
+    inplaceStep lib a w p = w := by
+  cases hr : readToString w p with
+  | none => exact Or.inr (by simp [inplaceStep, hr])
+  | some x =>
+    cases hl : lib a.style x with
+    | none => exact Or.inr (by simp [inplaceStep, hr, hl])
+    | some y =>
+      by_cases hy : y = x
+      · exact Or.inr (by simp [inplaceStep, hr, hl, hy])
+      · exact Or.inl ⟨x, y, rfl, hl, hy, by simp [inplaceStep, hr, hl, hy]⟩
+
+/-- After a write the file holds exactly the written text. -/
+theorem C15_written_bytes (w : Entry) (p : Path) (y x : String) (h : readToString w p = some x) :
+    readToString (w.write p y) p = some y := readToString_write_same w p y x h
+
+/-- T15.3 (a second run is a no-op): if the library returns its own output unchanged (C03), then
+applying the per-file effect again changes nothing. -/
+theorem C15_second_run_noop (lib : Lib) (a : Args) (w : Entry) (p : Path)
+    (hidem : ∀ x y, lib a.style x = some y → lib a.style y = some y) :
+    inplaceStep lib a (inplaceStep lib a w p) p = inplaceStep lib a w p := by
+  rcases C15_per_file_effect lib a w p with ⟨x, y, hr, hl, hne, hw⟩ | h
+  · rw [hw]
+    unfold inplaceStep
+    rw [readToString_write_same w p y x hr]
+    simp [hidem x y hl]
+  · rw [h]; exact h
+
+/-- T15.1/T15.2 (`format-all`, no `--check`): the final tree is the fold over the eligible files
+(see `eligibleFiles`) of the per-file effect `allWrite`; files that are not eligible are never
+passed to it; nothing is printed except log lines. -/
+theorem C15_format_all_is_fold_over_eligible (lib : Lib) (a : Args) (w : Entry) (dir : Option Path) (rootName : String)
+    (hc : a.check = false) (e : Entry) (he : w.get (dir.getD []) = some e) :
+    (runFormatAll lib a w dir rootName).world =
+      (eligibleFiles e (dir.getD []) (rootNameOf (dir.getD []) rootName) 0).foldl (allWrite lib a) w := by
+  unfold runFormatAll
+  simp only [he]
+  rw [walk_eq_fold]
+  have := foldl_allStep_world lib a hc (eligibleFiles e (dir.getD []) (rootNameOf (dir.getD []) rootName) 0) { st := { world := w } }
+  split <;> simpa using this
+
+/-- The per-file effect of `format-all`: rewritten iff readable, accepted and different; with the library result. -/
+theorem C15_format_all_per_file_effect (lib : Lib) (a : Args) (w : Entry) (f : Path × Content) :
+    (∃ x y, f.2 = .text x ∧ lib a.style x = some y ∧ y ≠ x ∧ allWrite lib a w f = w.write f.1 y) ∨ allWrite lib a w f = w := by
+  cases hc : f.2 with
+  | binary => exact Or.inr (by simp [allWrite, hc])
+  | text x =>
+    cases hl : lib a.style x with
+    | none => exact Or.inr (by simp [allWrite, hc, hl])
+    | some y =>
+      by_cases hy : y = x
+      · exact Or.inr (by simp [allWrite, hc, hl, hy])
+      · exact Or.inl ⟨x, y, rfl, hl, hy, by simp [allWrite, hc, hl, hy]⟩
+
+/-- A directory that does not exist (or a path that is not in the tree) is not walked: nothing changes. -/
+theorem C15_format_all_missing_dir (lib : Lib) (a : Args) (w : Entry) (dir : Option Path) (rootName : String)
+    (he : w.get (dir.getD []) = none) : (runFormatAll lib a w dir rootName).world = w := by
+  unfold runFormatAll; simp [he]
+
+/-- T15.2 (`-i`): failures are reported: the exit status is non-zero exactly when some input was unreadable. -/
+theorem C15_inplace_exit (lib : Lib) (a : Args) (w : Entry) (ps : List Path) (hc : a.check = false) :
+    ((runFiles lib a w ps).exit = 0 ∨ (runFiles lib a w ps).exit = 1) ∧
+    ((runFiles lib a w ps).exit = 1 ↔ (ps.foldl (manyStep lib a) { st := { world := w } }).errors > 0) := by
+  unfold runFiles
+  simp only
+  split <;> simp_all [exitOf]
 
 end Typstyle.Cli
